@@ -1,6 +1,9 @@
 package main
 
-import "time"
+import (
+	"strings"
+	"time"
+)
 
 // operand kinds of DESIGN Appendix A (free variables a b c Integer, x y Float, p q Boolean, s String are
 // bound to symbolic values by the harness).
@@ -82,11 +85,41 @@ func c07Programs(tier string) []string {
 		"a=b; a++; a", "s[a]", "s[a:b]", "s+s", "s*(c&3)", "s*a", "[a,b]*(c&3)", "[a,b]*c", "[]*a", "{a:b}+{b:c}",
 		"first(s)", "rest(s)", "len(s)", "for c1 = s {c1}", "for kv = {a:b,c:a} {kv}",
 	)
+	// control-flow objects (break, continue, return) in every expression position
+	for _, ctl := range []string{"break", "continue", "return", "return a"} {
+		for _, shape := range []string{"[%]", "[%]==[%]", "f(%)", "{1:%}", "{%:1}", "(%)+1", "1+(%)", "-(%)", "!(%)", "(%)[0]", "[1,2][%]", "v=%; v", "len(%)", "print(%)", "catch(%)", "quote(%)",
+			"for 2 {[%]}", "for i=2 {v=[%]}; v", "func(){[%]}()", "func(){(%)+1}()", "if % {1} else {2}", "for % {1}", "for i = % {i}", "(%)==(%)", "(%)<(%)", "{1:[%]}[1]", "func g(u){u}; g([%])", "(%).k", "(%)(1)", "% ; 1"} {
+			add("func f(u){u}; " + strings.ReplaceAll(shape, "%", ctl))
+		}
+	}
+	// quote / unquote / macro in unusual positions, over every operand kind
+	for _, r := range kindExprs {
+		add("quote(unquote(" + r + "))")
+		add("unquote(" + r + ")")
+		add("quote(unquote(quote(" + r + ")))")
+		add("m=macro(u){unquote(u)}; m(" + r + ")")
+		add("m=macro(u){1+1; quote(unquote(u))}; m(" + r + ")")
+		add("m=macro(u){" + r + "}; m(1)")
+		add("v=" + r + "; g=func(){del(v)}; f=func(){w=v; g(); v}; f()")
+		add("v=" + r + "; g=func(){del(v)}; f=func(){g(); v}; f()")
+		add("v=" + r + "; f=func(){w=v; del(v); [w, v]}; f()")
+		add("func(n){g=func(n){n}; g(n)}(" + r + ")")
+		add("func(n){(n=>n)(n)}(" + r + ")")
+		add("func(n){for n = 2 {n}}(" + r + ")")
+		add("func(n){func(m){func(n){n+m}(m)}(n)}(" + r + ")")
+	}
+	ps = append(ps,
+		"v=[1,2]; v[1]=macro(x){x}", "v={}; v.k=macro(){1}", "func f(u){u}; f(macro(x){x})", "[macro(x){x}]", "macro(x){x}(1)", "m=macro(){}; m()", "m=macro(u){}; m(a)", "macro(x){x}",
+		"m=macro(u){quote(unquote(u))}; m=1; m", "m=macro(u){quote(unquote(v))}; m(a)", "m=macro(u){quote(unquote(u, u))}; m(a)", "m=macro(u){quote()}; m(a)", "m=macro(u){quote(1, 2)}; m(a)",
+		"m=macro(u){m(u)}; m(a)", "m=macro(u){quote(m(unquote(u)))}; m(a)", "if p {m=macro(u){quote(1)}}; m(a)", "func f(){m=macro(u){quote(2)}; m(1)}; f()",
+		"func f(n){n=n+1; g=func(){n}; n++; g()}; f(a)", "func f(n,m){g=func(m){h=func(n){n+m}; h(m)}; g(n)}; f(a,b)", "func f(n){for i=2 {g=func(i){i+n}; g(n)}}; f(a)",
+		"v=1; del(v); v", "func f(){del(f); f}; f()", "v=a; r=func(){v}; del(v); r()", "v=a; func f(){w=v; del(v); w+1}; f(); f()",
+	)
 	return ps
 }
 
 // extension functions applied to every kind of value (the extensions package's harness runs extensions.Init)
-var c07ExtNames = []string{"pow", "sprintf", "sin", "cos", "tan", "ln", "sqrt", "exp", "asin", "acos", "atan", "log10", "floor", "ceil", "trunc", "round", "atan2", "rand",
+var c07ExtNames = []string{"pow", "sprintf", "sin", "cos", "tan", "ln", "sqrt", "exp", "asin", "acos", "atan", "log10", "floor", "ceil", "trunc", "round", "atan2",
 	"type", "eval", "unjson", "format", "defun", "runes", "rune_len", "width", "split", "join", "trim", "trim_left", "trim_right",
 	"min", "max", "int", "load", "save"}
 
